@@ -85,6 +85,7 @@ def tasks(tier, seed):
     out = [{"fn": "ctx", "kwargs": {"draws": d}, "label": f"ctx/draws={d}"} for d in (0, 1, 2)]
     for i, m in enumerate(MODELS):
         out.append({"fn": "model", "kwargs": {"i": i}, "label": f"model/{m[0]}"})
+        out.append({"fn": "model_twice", "kwargs": {"i": i}, "label": f"model_twice/{m[0]}"})
     for mode in ("exposure", "exposure_deprecated", "observation_seq", "observation_dask_fn", "fitness", "apply_parameters", "calibration"):
         out.append({"fn": "plumb", "kwargs": {"mode": mode}, "label": f"plumb/{mode}"})
     return out
@@ -200,6 +201,46 @@ def model(i):
             vx.prove(f"C04/model/{label}/no_reseed", vx.any_of([_eq(final, rngmodel.RngModel.after(rngmodel.STATE0, [n for n, _ in dr[:k]])) for k in range(len(dr) + 1)]), n_draws=len(dr), seeds=str(seeds),
                      raised=repr(raised)[:80] if raised else None)
             vx.prove(f"C04/model/{label}/unseeded_draws_follow_stream", vx.all_of([_eq(t, rngmodel.RngModel.after(rngmodel.STATE0, [n for n, _ in dr[:k]])) for k, (_, t) in enumerate(dr)]) if raised is None else True)
+
+
+def _buckets(d):
+    out = {}
+    for b in ("photon", "pixel", "signal", "image", "phase"):
+        c = getattr(d, "_" + b, None)
+        a = getattr(c, "_array", None) if c is not None else None
+        out[b] = None if a is None else np.array(a, dtype=float)
+    out["charge"] = np.array(d.charge.array, dtype=float)
+    return out
+
+
+def _same_buckets(x, y):
+    return all((x[k] is None and y[k] is None) or (x[k] is not None and y[k] is not None and np.array_equal(x[k], y[k], equal_nan=True)) for k in x)
+
+
+def model_twice(i):
+    """What a stochastic model does depends on its inputs and on the generator state only, not on earlier calls in the
+    process: called a second time on an identical detector from the same generator state it consumes the same draws
+    and leaves the same bucket contents (otherwise a seeded run is not reproducible 'whatever ran earlier')."""
+    import importlib
+
+    label, modname, fname, kind, kw, seedarg = MODELS[i]
+    f = getattr(importlib.import_module(modname), fname)
+    runs = []
+    with Patch() as p:
+        rng = rngmodel.RngModel().install(p)
+        _cheap_physics(p)
+        for _ in range(2):
+            rng.B, rng.G = rngmodel.B0, rngmodel.G0
+            rng.draws.clear()
+            d = _detector(kind)
+            raised = None
+            try:
+                f(d, **dict(kw))
+            except Exception as e:  # noqa: BLE001
+                raised = type(e).__name__
+            runs.append(([(n, z3.simplify(t).sexpr()) for n, t in rng.draws] + [("raised", raised)], _buckets(d)))
+    vx.prove(f"C04/model/{label}/history_independent/draws", runs[0][0] == runs[1][0], first=len(runs[0][0]), second=len(runs[1][0]))
+    vx.prove(f"C04/model/{label}/history_independent/result", _same_buckets(runs[0][1], runs[1][1]))
 
 
 # -- H3 -----------------------------------------------------------------------------------------------
@@ -429,6 +470,26 @@ def replay(oid, kwargs, model, data):
             bad = any(v["reseeded"] or (v["bits_same"] and not v["gauss_same"]) for v in out.values())
             return bad, out
         return False, res
+    if data["fn"] == "model_twice":
+        import importlib
+
+        label, modname, fname, kind, kw, seedarg = MODELS[kwargs["i"]]
+        f = getattr(importlib.import_module(modname), fname)
+        outs, states = [], []
+        with Patch() as p:
+            _cheap_physics(p)
+            for _ in range(2):
+                np.random.seed(777)
+                d = _detector(kind)
+                try:
+                    f(d, **dict(kw))
+                except Exception:  # noqa: BLE001
+                    pass
+                outs.append(_buckets(d))
+                states.append(np.random.get_state())
+        same_state = bool(np.array_equal(states[0][1], states[1][1]) and states[0][2:] == states[1][2:])
+        same_out = _same_buckets(outs[0], outs[1])
+        return (not same_state) or (not same_out), {"second_call_from_same_state_consumed_the_same_stream": same_state, "same_buckets": same_out}
     if data["fn"] in ("ctx", "plumb") and not (data["fn"] == "plumb" and kwargs["mode"] == "calibration"):
         from pyxel.util import set_random_seed
 
